@@ -3,6 +3,7 @@ package main
 import (
 	"errors"
 	"fmt"
+	"net/http"
 	"net/http/httptest"
 	"sync"
 	"time"
@@ -23,10 +24,54 @@ func init() {
 	runners["startup"] = runStartup
 }
 
+var probeCount int
+
+// probeReady asks the endpoint the way different clients do (methods, Accept headers, a real connection every few probes): the
+// answer must not depend on how the question is asked. The worst (most "ready") status of the variants is reported.
 func probeReady(r *controllers.Ready) int {
-	w := httptest.NewRecorder()
-	r.ServeHTTP(w, httptest.NewRequest("GET", "/pugjs/ready", nil))
-	return w.Code
+	probeCount++
+	variants := []func() *http.Request{
+		func() *http.Request { return httptest.NewRequest("GET", "/pugjs/ready", nil) },
+		func() *http.Request {
+			q := httptest.NewRequest("GET", "/pugjs/ready", nil)
+			q.Header.Set("Accept", "application/json")
+			return q
+		},
+		func() *http.Request {
+			q := httptest.NewRequest("HEAD", "/pugjs/ready?verbose=1", nil)
+			q.Header.Set("Accept", "text/html, application/json;q=0.9, */*;q=0.8")
+			return q
+		},
+	}
+	first := -1
+	for i, mk := range variants {
+		if i > 0 && (probeCount+i)%3 != 0 {
+			continue
+		}
+		var code int
+		if (probeCount+i)%5 == 0 {
+			// through a real server: headers are committed by the first body write
+			srv := httptest.NewServer(r)
+			q, _ := http.NewRequest(mk().Method, srv.URL+"/pugjs/ready", nil)
+			q.Header = mk().Header
+			if res, err := http.DefaultClient.Do(q); err == nil {
+				code = res.StatusCode
+				res.Body.Close()
+			}
+			srv.Close()
+		} else {
+			w := httptest.NewRecorder()
+			r.ServeHTTP(w, mk())
+			code = w.Result().StatusCode
+		}
+		if first < 0 {
+			first = code
+		}
+		if code == 200 && first != 200 {
+			return 200 // one way of asking says ready while another does not
+		}
+	}
+	return first
 }
 
 func runStartup(c Case) interface{} {
